@@ -177,7 +177,7 @@ func (n *namer) genCmdBody(c *Cmd) {
 			}
 			a.T = TypeSpec{K: t.K}
 			if isIntKind(t.K) && r.Chance(cfg.PBase, 100) {
-				a.Base = []int{2, 8, 16, 36}[r.Intn(4)]
+				a.Base = []int{2, 8, 16, 36, BaseAuto}[r.Intn(5)]
 			}
 			if i == k-1 && rest {
 				a.T.W = WSlice
@@ -380,7 +380,7 @@ func (n *namer) genOpt(g *Grp, c *Cmd) *Opt {
 	}
 	t := o.T
 	if isIntKind(t.K) && r.Chance(cfg.PBase, 100) {
-		o.Base = []int{2, 8, 16, 36, 3, 7, 10, 12, 32}[r.Intn(9)]
+		o.Base = []int{2, 8, 16, 36, 3, 7, 10, 12, 32, BaseAuto, BaseAuto}[r.Intn(11)]
 	}
 	if t.W == WMap && isIntKind(t.MapKey) && o.Base == 0 && isIntKind(t.K) && r.Chance(cfg.PBase, 100) {
 		o.Base = 16
@@ -414,7 +414,8 @@ func (n *namer) genOpt(g *Grp, c *Cmd) *Opt {
 				o.OptionalValues = append(o.OptionalValues, GenValueText(r, o))
 			}
 		}
-		if r.Chance(cfg.PDefault, 100) && !t.IsFunc() {
+		if r.Chance(cfg.PDefault, 100) && !t.IsFunc() && t.K != KOnOff {
+			// (a default tag on a bool-kinded type is refused at declaration time, also when the type unmarshals itself)
 			nv := 1
 			if t.IsMulti() {
 				nv = r.Range(1, 3)
@@ -518,9 +519,18 @@ func GenScalarText(r *Rand, k TK, base int, variant int) string {
 	if base == 0 {
 		base = 10
 	}
+	if base == BaseAuto && isIntKind(k) {
+		return genAutoBaseText(r, k)
+	}
 	switch {
 	case k == KString || k == KPicky:
 		return GenString(r, r.Intn(12))
+	case k == KOnOff:
+		return r.Pick([]string{"on", "off"})
+	case k == KRes:
+		return r.Pick([]string{"cpu", "CPU", "Mem", "disk0", "NET"}) + r.Pick([]string{"", "", "1", "X"})
+	case k == KBag:
+		return fmt.Sprintf("bag%d", r.Intn(1000))
 	case k == KVocab:
 		if r.Bool() {
 			return vocabulary[r.Intn(len(vocabulary))]
@@ -597,6 +607,42 @@ func GenScalarText(r *Rand, k TK, base int, variant int) string {
 	panic("GenScalarText")
 }
 
+// genAutoBaseText renders an in-range value in one of the spellings base 0 understands.
+func genAutoBaseText(r *Rand, k TK) string {
+	lo, hi := intRange(k)
+	var v *big.Int
+	switch r.Intn(4) {
+	case 0:
+		v = new(big.Int).Set(hi)
+	case 1:
+		v = new(big.Int).Set(lo)
+	default:
+		v = big.NewInt(int64(r.Intn(4000)) - 2000)
+		if v.Cmp(lo) < 0 || v.Cmp(hi) > 0 {
+			v = big.NewInt(int64(r.Intn(100)))
+		}
+	}
+	neg := v.Sign() < 0
+	a := new(big.Int).Abs(v)
+	var s string
+	switch r.Intn(6) {
+	case 0:
+		s = r.Pick([]string{"0x", "0X"}) + a.Text(16)
+	case 1:
+		s = r.Pick([]string{"0b", "0B"}) + a.Text(2)
+	case 2:
+		s = r.Pick([]string{"0o", "0O"}) + a.Text(8)
+	case 3:
+		s = "0" + a.Text(8) // the classic leading-zero octal
+	default:
+		s = a.Text(10)
+	}
+	if neg {
+		s = "-" + s
+	}
+	return s
+}
+
 // GenValueText yields a must-accept argument text for option o (a choice if choices are declared).
 func GenValueText(r *Rand, o *Opt) string {
 	if len(o.Choices) > 0 {
@@ -623,7 +669,7 @@ func GenValueText(r *Rand, o *Opt) string {
 var (
 	scalarKinds  = []TK{KString, KInt, KInt8, KInt16, KInt32, KInt64, KUint, KUint8, KUint16, KUint32, KUint64, KFloat32, KFloat64, KDuration, KCelsius, KPoint}
 	typesAllArgs []TypeSpec // every argument-taking type of the matrix
-	typesFlags   = []TypeSpec{{K: KBool}, {K: KBool, W: WSlice}, {K: KBool, W: WPtr}, {W: WFunc0}, {W: WFunc0Err}}
+	typesFlags   = []TypeSpec{{K: KBool}, {K: KBool, W: WSlice}, {K: KBool, W: WPtr}, {W: WFunc0}, {W: WFunc0Err}, {K: KBool, W: WSlicePtr}}
 	typesAll     []TypeSpec
 )
 
@@ -641,6 +687,8 @@ func init() {
 		TypeSpec{K: KBool, W: WMap, MapKey: KString},
 		TypeSpec{K: KString, W: WFunc1}, TypeSpec{K: KInt, W: WFunc1}, TypeSpec{K: KString, W: WFunc1Err}, TypeSpec{K: KDuration, W: WFunc1Err},
 		TypeSpec{K: KPoint, W: WPtr}, TypeSpec{K: KVocab}, TypeSpec{K: KPicky},
+		TypeSpec{K: KOnOff}, TypeSpec{K: KOnOff, W: WSlice}, TypeSpec{K: KOnOff, W: WPtr},
+		TypeSpec{K: KInt, W: WMap, MapKey: KRes}, TypeSpec{K: KRes},
 	)
 	typesAll = append(append([]TypeSpec{}, typesAllArgs...), typesFlags...)
 	typesAll = append(typesAll, typesFlags...) // weight flags a little higher
